@@ -574,7 +574,34 @@ func (e *Env) templateRules() {
 				continue
 			}
 			call := ir.Call(ews, ir.Param(0), gstr)
-			ok := hasGuard(lf, ir.Bin("==", gerr, nilOf(errorType))) && lf.Ret[0].Op == ir.OExtract && lf.Ret[0].Args[0].Key() == call.Key() && lf.Ret[1].Op == ir.OExtract && lf.Ret[1].Args[0].Key() == call.Key()
+			readOK := ir.Bin("==", gerr, nilOf(errorType))
+			ok := hasGuard(lf, readOK) && lf.Ret[0].Op == ir.OExtract && lf.Ret[0].Args[0].Key() == call.Key() && lf.Ret[1].Op == ir.OExtract && lf.Ret[1].Args[0].Key() == call.Key()
+			if !ok && hasGuard(lf, readOK) {
+				// not a call of the own ExportWithString, but the same thing written out (a shared helper expanded in
+				// place): after the successful read the path is one of ExportWithString's own paths with the text
+				// replaced by the reader's content - same conditions, same results
+				rest := map[string]bool{}
+				for _, g := range lf.Guards {
+					if g.Key() != readOK.Key() {
+						rest[g.Key()] = true
+					}
+				}
+				for _, sl := range leavesOf(ews) {
+					if len(sl.Ret) != 2 {
+						continue
+					}
+					args := []*ir.Term{ir.Param(0), gstr}
+					same := ir.Subst(sl.Ret[0], args).Key() == lf.Ret[0].Key() && ir.Subst(sl.Ret[1], args).Key() == lf.Ret[1].Key() && len(sl.Guards) == len(rest)
+					for _, g := range sl.Guards {
+						if !rest[ir.Subst(g, args).Key()] {
+							same = false
+						}
+					}
+					if same {
+						ok = true
+					}
+				}
+			}
 			c.Check(ok, rule, cons, e.P.Pos(lf.Pos), "own ExportWithString on the reader's full, unmodified content", "exporting from a reader is not ExportWithString(full content of the reader) of the same report: "+clip(lf.String()))
 		}
 	}
@@ -599,22 +626,38 @@ func (e *Env) reportHelpers() (exec, read *types.Func) {
 			if m == nil {
 				return nil
 			}
-			sf := e.P.SSAFunc(m)
+			// the helper is called by the method itself or through unexported helpers of the package (a shared
+			// exportWith(rep, isNil, r) in front of it): search the package-internal call tree, nearest first
 			var here *types.Func
-			for _, b := range sf.Blocks {
-				for _, in := range b.Instrs {
-					call, ok := in.(*ssa.Call)
-					if !ok || call.Call.StaticCallee() == nil {
+			seen := map[*ssa.Function]bool{}
+			level := []*ssa.Function{e.P.SSAFunc(m)}
+			for depth := 0; depth < 4 && here == nil && len(level) > 0; depth++ {
+				var next []*ssa.Function
+				for _, sf := range level {
+					if sf == nil || seen[sf] {
 						continue
 					}
-					callee, _ := call.Call.StaticCallee().Object().(*types.Func)
-					if callee == nil || callee.Pkg() != pk.Types || callee.Type().(*types.Signature).Recv() != nil {
-						continue
-					}
-					if want(callee.Type().(*types.Signature)) {
-						here = callee
+					seen[sf] = true
+					for _, b := range sf.Blocks {
+						for _, in := range b.Instrs {
+							call, ok := in.(*ssa.Call)
+							if !ok || call.Call.StaticCallee() == nil {
+								continue
+							}
+							cf := call.Call.StaticCallee()
+							callee, _ := cf.Object().(*types.Func)
+							if callee == nil || callee.Pkg() != pk.Types || callee.Type().(*types.Signature).Recv() != nil {
+								continue
+							}
+							if want(callee.Type().(*types.Signature)) {
+								here = callee
+							} else if !callee.Exported() {
+								next = append(next, cf)
+							}
+						}
 					}
 				}
+				level = next
 			}
 			if here == nil || (found != nil && found != here) {
 				return nil
